@@ -128,6 +128,9 @@ func (p *goProgram) Sizeof(T types.Type) int64 {
 func (p *goProgram) extraSize(typ types.Type, ptrSize int64) (ret int64) {
 retry:
 	switch t := typ.(type) {
+	case *types.Alias:
+		typ = types.Unalias(t)
+		goto retry
 	case *types.Named:
 		if v, ok := p.gocvt.typbg.Load(namedLinkname(t)); ok && v.(Background) == InC {
 			return 0
